@@ -205,7 +205,8 @@ def _index_job(_):
                     'k': {'vtype': 'constant', 'value': 2, 'dtype': 'int32', 'shape': ()}}
     cases = [('index(A, 0)', A[0]), ('index(A, 5)', A[5]), ('index(A, k)', A[2]), ('index_range(A, 1, 4)', A[1:4]), ('index_range(A, k, 5)', A[2:5]),
              ('index_axis(A)', A[:]), ('index_2d(M, 1, 2)', M[1, 2]), ('index_2d(M, k, 0)', M[2, 0]), ('index_axis(M, 1, 1)', M[:, 1]),
-             ('index_axis(M, 2, 0)', M[2]), ('2*index(A, 1) + index(A, 2)', 2 * A[1] + A[2]), ('index(A, 1)^2 - index_2d(M, 0, 3)', A[1] ** 2 - M[0, 3])]
+             ('index_axis(M, 2, 0)', M[2]), ('2*index(A, 1) + index(A, 2)', 2 * A[1] + A[2]), ('vsum(A)', A.sum()), ('vsum(M)', M.sum()), ('vsum(M*2)', (M * 2).sum()),
+             ('vsum(index_axis(M, 1, 1))', M[:, 1].sum()), ('index(A, 1)^2 - index_2d(M, 0, 3)', A[1] ** 2 - M[0, 3])]
     bad = []
     for expr, want in cases:
         try:
